@@ -13,3 +13,33 @@ func init() {
 		},
 	})
 }
+
+func init() {
+	register(&Property{
+		ID:    "C08",
+		Title: "Direct subscription accounting; failed requests leave nothing behind",
+		Explanation: "Decides: on every continuation path of every function that takes a direct subscription (c.Subscribe(rid, true, _)), the count is released exactly once on every failure, on every outcome of get-type handlers, and kept exactly on the success of subscribe-type handlers; a subscription whose Subscribe failed is never released. Does not decide: numeric equality of the counter with the response history.",
+		Assumptions: []string{"LIN (C07): every handler replies exactly once", "a task refused by a disposing connection needs no release (dispose releases everything)"},
+		Rules: []Rule{
+			{Name: "PAIR/direct-count", Min: 4, Run: rulePairDirect, Doc: "acquire/release of the direct count along every continuation path"},
+		},
+	})
+	register(&Property{
+		ID:    "C09",
+		Title: "Cache entry lifecycle",
+		Explanation: "Decides: use-count pairing (getSubscription counts one use on success and none on error; callers release or hand over exactly once; a count is released iff a membership was removed; bulk releases equal the set dropped). Does not decide: eviction delay, gauges at quiescence.",
+		Rules: []Rule{
+			{Name: "PAIR/cache-count", Min: 3, Run: rulePairCacheCount, Doc: "getSubscription / sendRequest / Subscribe use count pairing"},
+			{Name: "PAIR/membership", Min: 3, Run: rulePairMembership, Doc: "count released iff a membership was removed"},
+			{Name: "PAIR/loaded-handover", Min: 1, Run: rulePairLoaded, Doc: "late Loaded releases the cache use"},
+		},
+	})
+	register(&Property{
+		ID:    "C19",
+		Title: "Throttles bound outstanding requests and never stall",
+		Explanation: "Decides: one Done per governed request on every path, outside refusable tasks.",
+		Rules: []Rule{
+			{Name: "PAIR/throttle-slot", Min: 3, Run: rulePairThrottle, Doc: "exactly one Done per governed request"},
+		},
+	})
+}
